@@ -36,10 +36,13 @@ type replayResult struct {
 	AllObserves [][]string `json:"all_observes"`
 	DrawsUsed   int        `json:"draws_used"`
 	Underflow   bool       `json:"underflow"`
+	Race        bool       `json:"race"`
 }
 
 func (r *replayResult) confirms(v *Violation) bool {
 	switch v.Kind {
+	case "race":
+		return r.Race
 	case "panic":
 		return r.Panic != ""
 	case "hang":
@@ -70,7 +73,15 @@ func runNativeReplays(w *World, scripts []*replayScript, verbose bool) error {
 		return err
 	}
 	defer os.RemoveAll(tmp)
-	for pkg, ss := range byPkg {
+	for pkg, all := range byPkg {
+		var ss, raceScripts []*replayScript
+		for _, s := range all {
+			if s.vio != nil && s.vio.Kind == "race" {
+				raceScripts = append(raceScripts, s)
+			} else {
+				ss = append(ss, s)
+			}
+		}
 		overlay := map[string]string{}
 		files, _ := filepath.Glob(filepath.Join(w.verifDir, "harness", pkg, "zz_verif_*.go"))
 		for _, f := range files {
@@ -87,6 +98,35 @@ func runNativeReplays(w *World, scripts []*replayScript, verbose bool) error {
 		ovb, _ := json.Marshal(map[string]interface{}{"Replace": overlay})
 		ovPath := filepath.Join(tmp, "overlay-"+strings.ReplaceAll(pkg, "/", "_")+".json")
 		os.WriteFile(ovPath, ovb, 0o644)
+		if len(raceScripts) > 0 {
+			// real code, no stubs: only the harness files are overlaid
+			plain := map[string]string{}
+			for k, v := range overlay {
+				if strings.HasPrefix(filepath.Base(k), "zz_verif_") {
+					plain[k] = v
+				}
+			}
+			pb, _ := json.Marshal(map[string]interface{}{"Replace": plain})
+			pPath := filepath.Join(tmp, "overlay-race.json")
+			os.WriteFile(pPath, pb, 0o644)
+			cmd := exec.Command("go", "test", "-vet=off", "-count=1", "-race", "-overlay", pPath, "-run", "^TestVerifRace$", "-timeout", "10m", "./"+pkg)
+			cmd.Dir = w.repoDir
+			cmd.Env = append(goEnv(), "VERIF_RACE=1")
+			var out bytes.Buffer
+			cmd.Stdout = &out
+			cmd.Stderr = &out
+			runErr := cmd.Run()
+			race := strings.Contains(out.String(), "DATA RACE") || (runErr != nil && strings.Contains(out.String(), "--- FAIL: TestVerifRace"))
+			if runErr != nil && !race && verbose {
+				fmt.Println(tail(out.String(), 1500))
+			}
+			for _, s := range raceScripts {
+				s.result = &replayResult{Race: race}
+			}
+		}
+		if len(ss) == 0 {
+			continue
+		}
 		inPath := filepath.Join(tmp, "in-"+strings.ReplaceAll(pkg, "/", "_")+".json")
 		outPath := filepath.Join(tmp, "out-"+strings.ReplaceAll(pkg, "/", "_")+".json")
 		sb, _ := json.Marshal(ss)
